@@ -20,7 +20,10 @@ def inmem_event(n: Node):
     """('+'|'-', place, argument text) for a call that adds to / removes from a DummyQueue field."""
     if n.kind != "call" or not isinstance(n.ast, ast.Call):
         return None
-    ch = C.attr_chain(n.ast.func)
+    fe = n.ast.func
+    if isinstance(fe, ast.Attribute) and isinstance(fe.value, ast.Name) and fe.value.id not in ("self", "q"):
+        fe = C.inline_locals(n.func, fe) or fe  # a local alias of a place (`bucket = self._queue.delayed[t]`)
+    ch = C.attr_chain(fe)
     meth = ch[-1]
     fields = [x for x in ch[:-1] if x in PLACE_OF_FIELD]
     if not fields:
@@ -198,18 +201,29 @@ def inmem_consume_rules(ctx: Ctx, rule_t="R-C01-TRANSFER", rule_a="R-C14-TAKE") 
         ok = len(pops) == 1
         ctx.check(ok, rule_t, d, f"__consume_delayed: `{unparse(v)[:60]}` removes exactly what it returns", "one pop per returned message",
                   f"__consume_delayed returns `{unparse(v)[:80]}`, which does not remove exactly the returned message from the delayed map", node=r, instance=f"consume_delayed: {unparse(v)[:40]}")
-    tests = [t for t in gd.nodes if t.kind == "test" and "len(" in t.label]
-    for t in tests:
-        c = t.ast
-        ok = isinstance(c, ast.Compare) and isinstance(c.ops[0], ast.Eq) and C.is_const(c.comparators[0], 1)
-        # bucket with one message -> whole bucket popped; more -> first message popped
-        r1 = flow.reach(gd, [t.id], ("T",))
-        whole = [gd.nodes[i] for i in r1 | flow.reach(gd, r1, flow.NORMAL_KINDS) if gd.nodes[i].kind == "return"]
-        ok = ok and any("delayed.pop(" in unparse(w.ast.value) for w in whole)
-        ctx.check(ok, rule_t, d, "__consume_delayed: the bucket is deleted only when it holds exactly one message", "len(bucket) == 1 -> pop the bucket",
-                  f"__consume_delayed deletes the whole time bucket under `{t.label}`: with several messages due at the same instant the others vanish", node=t, instance="consume_delayed: bucket deletion")
+    def len_env(one: bool):
+        def fn(text, node):
+            if isinstance(node, ast.Compare) and isinstance(node.ops[0], ast.Eq) and isinstance(node.left, ast.Call) and dotted(node.left.func) == "len" and C.is_const(node.comparators[0], 1):
+                return one
+            if isinstance(node, ast.Compare) and isinstance(node.ops[0], ast.Gt) and isinstance(node.left, ast.Call) and dotted(node.left.func) == "len" and C.is_const(node.comparators[0], 1):
+                return not one
+            if dotted(node) == "self._queue.delayed":
+                return True
+            return None
+        return {"*len": fn}
+
+    for one in (True, False):
+        r_ = flow.reach_under(gd, len_env(one), flow.NORMAL_KINDS)
+        got = [C.utext(d, n.ast.value) for n in gd.nodes if n.kind == "return" and n.id in r_ and not C.is_const(n.ast.value, None)]
+        whole = [g_ for g_ in got if "delayed.pop(" in g_]
+        elem = [g_ for g_ in got if "delayed[" in g_ and ".pop(0)" in g_]
+        ok = (len(got) == 1 and len(whole) == 1) if one else (len(got) == 1 and len(elem) == 1)
+        ctx.check(ok, rule_t, d, f"__consume_delayed: bucket with {'exactly one message' if one else 'several messages'}", "bucket deleted" if one else "first message popped, bucket kept",
+                  f"__consume_delayed with {'one message' if one else 'several messages'} in the earliest bucket returns {got}: "
+                  + ("the emptied bucket must be deleted" if one else "deleting the whole bucket makes the other messages due at the same instant vanish"),
+                  instance=f"consume_delayed: bucket[{'1' if one else 'n'}]")
     sm = [n for n in ast.walk(d.node) if isinstance(n, ast.Call) and dotted(n.func) == "min"]
-    ctx.check(len(sm) == 1 and unparse(sm[0].args[0]) == "self._queue.delayed", "R-C15-INMEM", d, "__consume_delayed takes the soonest due time", "min(delayed)", "__consume_delayed does not take the earliest bucket",
+    ctx.check(len(sm) == 1 and C.utext(d, sm[0].args[0]) == "self._queue.delayed", "R-C15-INMEM", d, "__consume_delayed takes the soonest due time", "min(delayed)", "__consume_delayed does not take the earliest bucket",
               instance="consume_delayed: soonest")
     # finish: everything held goes back
     fin = ctx.func(f"{C.INMEM_CONS}.finish")
@@ -248,7 +262,7 @@ def redis_place(cmd: str, key: str) -> tuple[str, str] | None:
         place = "waiting"
     elif key.startswith("mnc(") or key.startswith("full_message_name_from_short("):
         place = "data"
-    elif key == "full_queue_name":
+    elif key in ("full_queue_name", "queue_name", "source_queue", "full_name"):
         place = "source"
     else:
         place = "?" + key
@@ -272,7 +286,8 @@ REDIS_ALLOWED = {
 
 def redis_txn_rules(ctx: Ctx, ops=("enqueue", "ack", "nack", "reject", "requeue"), rule_t="R-C01-TRANSFER", rule_a="R-C01-ATOMIC") -> None:
     targets = [(op, ctx.func(f"{C.REDIS_BROKER}.{op}"), same_class_policy(C.REDIS_BROKER, ("maintenance",))) for op in ops]
-    targets.append(("take", ctx.func(f"{C.REDIS_CONS}.__get_message_name"), lambda n, cal: cal.cls is not None and cal.cls.qualname == C.REDIS_CONS and cal.name == "__mark_processing"))
+    targets.append(("take", ctx.func(f"{C.REDIS_CONS}.__get_message_name"),
+                    lambda n, cal: cal.cls is not None and cal.cls.qualname == C.REDIS_CONS and not cal.is_async))
     for op, f, pol in targets:
         g = flow.inline(f, ctx.res, ctx.depth, pol)
         aw = await_map(g)
@@ -342,7 +357,7 @@ def redis_txn_rules(ctx: Ctx, ops=("enqueue", "ack", "nack", "reject", "requeue"
                 ok = isinstance(mp, ast.Dict) and len(mp.keys) == 1 and unparse(mp.keys[0]) == "mnc(key, short=True)"
                 ctx.check(ok, rule_t, h, f"redis {hname}: zadd member is the message's short name", "mnc(key, short=True)", f"redis {hname} zadds {unparse(mp)}", node=c, instance=f"redis {hname}: zadd member")
     t = ctx.func(f"{C.REDIS_CONS}.__get_message_name")
-    for c in ast.walk(t.node):
+    for _own, c in C.flat_walk_bound(ctx, t):
         if isinstance(c, ast.Call) and isinstance(c.func, ast.Attribute) and dotted(c.func.value) == "pipe" and c.func.attr in ("lrem", "zrem"):
             ok = unparse(c.args[0]) == "full_queue_name" and unparse(c.args[-1]) == "msg_short_name"
             ctx.check(ok, rule_t, t, f"redis take: {c.func.attr} removes the fetched name from the fetched queue", "same queue, same name", f"redis take removes {unparse(c)}", node=c,
@@ -377,15 +392,30 @@ def redis_source_rules(ctx: Ctx, rule="R-C01-SOURCE") -> None:
                 markers.add(last.value.split(":")[-1])
             elif isinstance(last, ast.FormattedValue) and isinstance(last.value, ast.IfExp):
                 markers |= {last.value.body.value, last.value.orelse.value}
-    disp = {c.comparators[0].value for c in ast.walk(rj.node) if isinstance(c, ast.Compare) and dotted(c.left) == "reject_to" and isinstance(c.comparators[0], ast.Constant)}
+    hm_names = {t.id for n in ast.walk(rj.node) if isinstance(n, (ast.Assign, ast.AnnAssign)) and isinstance(n.value, ast.Await) and isinstance(n.value.value, ast.Call)
+                and isinstance(n.value.value.func, ast.Attribute) and n.value.value.func.attr == "hmget" for t in (n.targets if isinstance(n, ast.Assign) else [n.target]) if isinstance(t, ast.Name)}
+
+    def from_marker(e):
+        return any(isinstance(s_, ast.Subscript) and dotted(s_.value) in hm_names and C.is_const(s_.slice, 1) for x in C.expand_locals(rj, e) for s_ in ast.walk(x))
+
+    disp = {c.comparators[0].value for c in ast.walk(rj.node) if isinstance(c, ast.Compare) and isinstance(c.ops[0], ast.Eq) and isinstance(c.comparators[0], ast.Constant)
+            and isinstance(c.comparators[0].value, str) and from_marker(c.left)}
     ctx.check(markers == {"n", "d", "dead"} and disp == {"dead"}, rule, rj, "redis: every queue marker has a reject route", f"markers {sorted(markers)}; 'dead' explicit, n/d by due time",
               f"redis queue markers are {sorted(markers)} but reject dispatches on {sorted(disp)}", instance="redis: markers vs dispatch")
     g = ctx.cfg(rj)
     piq = [n for n in g.calls() if (n.callee or "").endswith("__put_in_queue")]
     ok = len(piq) == 1 and C.is_const(C.kw(piq[0].ast, "in_front"), True)
     ctx.check(ok, rule, rj, "redis reject returns the message in front", "in_front=True", "redis reject does not put the returned message at the consumption end", instance="redis: reject in front")
-    pr = C.local_defs(rj, "params")
-    ok = any("decode(raw_params[0].decode())" in unparse(d) for d in pr)
+    piq_call = piq[0].ast if piq else None
+    du = C.kw(piq_call, "delay_until") if piq_call is not None else None
+    src_ok = False
+    if du is not None:
+        for x in C.expand_locals(rj, du, depth=4):
+            for s_ in ast.walk(x):
+                if isinstance(s_, ast.Call) and (dotted(s_.func) or "").endswith("PARAMETERS_CLASS.decode") and any(
+                        isinstance(y, ast.Subscript) and dotted(y.value) in hm_names and C.is_const(y.slice, 0) for y in ast.walk(s_)):
+                    src_ok = True
+    ok = src_ok
     ctx.check(ok, rule, rj, "redis reject routes by the message's stored parameters", "PARAMETERS_CLASS.decode(stored)", "redis reject does not decode the stored parameters for routing", instance="redis: reject params")
 
 
